@@ -144,7 +144,7 @@ func c11(c *rig.Ctx) {
 		"checkpoint undefined)")
 	c.Assume("invalid ordinal ranges (stop > count, start > stop) are not probed: the API documents an error for them")
 	st := newStats()
-	n := c.Pick(300, 6000)
+	n := c.Pick(300, 12000)
 	parallel(n, workers, func(i int) { c11History(c, st, i, n) })
 	st.flush(c)
 	c.Require(st.get("c11.flushes.auto") > 0, "no maxPending-overflow flush happened")
